@@ -1337,3 +1337,17 @@ Proof.
       rewrite G. destruct (queue_request_for_upstream cfg false pf) as [[q'' w]|e]; [|reflexivity].
       destruct R as [_ _ _ (up & Ru & _)]. unfold after_forward. cbn [h_upstream set_pipeline]. rewrite Ru. reflexivity.
 Qed.
+
+(* ---- composition: one well-formed request through the handler ---- *)
+Lemma get_ci_with_via_hop cfg ln hs : is_hop ln = false -> ln <> L_VIA ->
+  get_ci ln (with_via cfg (drop_hop hs)) = get_ci ln hs.
+Proof.
+  intros H1 H2. unfold with_via, drop_hop.
+  assert (G : forall v, get_ci ln (set_field H_VIA v (filter (fun nv => negb (is_hop (lower (fst nv)))) hs)) = get_ci ln hs).
+  { intros v. rewrite get_ci_set_field. change (lower H_VIA) with L_VIA.
+    destruct (bytes_eqb_spec ln L_VIA); [contradiction|]. apply (get_ci_filter is_hop ln hs H1). }
+  destruct (get_ci L_VIA _); apply G.
+Qed.
+
+Lemma has_key_fields ln fs : has_key_ci ln (map field_nv fs) = existsb (name_is ln) fs.
+Proof. unfold has_key_ci. rewrite existsb_map_field. reflexivity. Qed.
